@@ -79,7 +79,8 @@ def dump_value(v) -> dict:
     if isinstance(v, T.SigmaCompareExpression):
         if abs(v.number.number) >= 2**31:
             return _v("cmp", parts=cps(repr(v.number.number)), s=cps(v.op.name.lower()))
-        return _v("cmp", num=num_of(v.number.number), s=cps(v.op.name.lower()))
+        unit = cps(v.number.timestamp_part.name.lower()) if isinstance(v.number, T.SigmaTimestampPart) else []
+        return _v("cmp", num=num_of(v.number.number), s=cps(v.op.name.lower()), flags=unit)
     if isinstance(v, T.SigmaFieldReference):
         return _v("fieldref", s=cps(v.field), flags=[int(v.starts_with), int(v.ends_with)])
     if isinstance(v, T.SigmaQueryExpression):
